@@ -33,18 +33,6 @@ ShapeS(n) ==
            YLen(i) == IF i > Len(ch) THEN 0 ELSE (IF ch[i][1] = "t" THEN 1 ELSE ch[i][6]) + YLen(i + 1)
        IN <<"n", n.p, n.s, n.e, Trim(ch), YLen(1)>>
 
-\* shape without offsets: what "the same tree" means for two renderings of one token string
-RECURSIVE ShapeK(_)
-ShapeK(n) ==
-  IF n.k = "t" THEN <<"t", n.t>>
-  ELSE LET ch == [i \in 1 .. Len(n.c) |-> ShapeK(n.c[i])]
-           RECURSIVE Trim(_)
-           Trim(x) == IF x # <<>> /\ x[Len(x)][1] = "n" /\ x[Len(x)][4] = 0
-                      THEN Trim(SubSeq(x, 1, Len(x) - 1)) ELSE x
-           RECURSIVE YLen(_)
-           YLen(i) == IF i > Len(ch) THEN 0 ELSE (IF ch[i][1] = "t" THEN 1 ELSE ch[i][4]) + YLen(i + 1)
-       IN <<"n", n.p, Trim(ch), YLen(1)>>
-
 AllLexed(r) == \A i \in 1 .. Len(r.lex) : r.lex[i][3] >= 0
 
 \* lexically ambiguous input: the harness supplies the token lattice
